@@ -163,10 +163,13 @@ class Unit:
         return "\n".join(self.out_lines) + "\n"
 
 
-def parse_unit(name, vacuity=False):
+def parse_unit(name, vacuity=False, shard=None):
+    """shard = (fn name, i, n): only that function is verified, with the labelled ensures clauses number i mod n"""
     u = Unit(name)
     u.vacuity = vacuity
     u.vacuity_targets = []
+    u.shard = shard
+    u.sharded = []
     if not os.path.exists(u.path):
         raise Undecided("no such unit: " + name)
     raw = open(u.path).read().split("\n")
@@ -374,6 +377,7 @@ def emit_fn(u, file, nm, block):
     proof_lines = []
     closures = {}
     etas = []
+    nshards = 0
     mode = None
     cur = None
     drop_ret = False
@@ -402,6 +406,9 @@ def emit_fn(u, file, nm, block):
             cur = {"ord": ordn, "let": let, "lines": []}
             closures[ordn] = cur
             mode = "closure"
+        elif s.startswith("//@shard"):
+            nshards = int(s.split()[1])
+            mode = None
         elif s.startswith("//@eta "):
             # //@eta <Constructor> :: <arg type> -> <result type>   (constructor used as a function value: eta-expanded)
             m = re.match(r"//@eta\s+(\S+)\s+::\s+(.+?)\s+->\s+(.+)$", s)
@@ -421,6 +428,39 @@ def emit_fn(u, file, nm, block):
             elif s:
                 raise Undecided("unit %s: stray text in //@fn %s: %r" % (u.name, nm, s))
 
+    # ---- sharding: a function marked //@shard N is verified in N separate runs, each with a slice of its labelled
+    #      ensures clauses (every run re-checks the body obligations); in the main run it is not verified
+    if nshards:
+        u.sharded.append((nm, nshards))
+    sh = getattr(u, "shard", None)
+    if sh is not None and not getattr(u, "vacuity", False):
+        if sh[0] == nm:
+            kept, ordn, in_ens = [], 0, False
+            for l in spec_lines:
+                if re.match(r"\s*ensures\b", l):
+                    in_ens = True
+                if re.match(r"\s*(requires|decreases)\b", l):
+                    in_ens = False
+                if in_ens and LABEL_RE.search(l):
+                    keep = (ordn % sh[2]) == sh[1]
+                    ordn += 1
+                    if not keep:
+                        if re.match(r"\s*ensures\b", l):
+                            kept.append("    ensures")
+                        continue
+                kept.append(l)
+            spec_lines = kept
+        else:
+            attrs = attrs + ["#[verifier::external_body]"]
+            closures = {}
+            proof_lines = []
+            etas = []
+    elif nshards and not getattr(u, "vacuity", False):
+        attrs = attrs + ["#[verifier::external_body]"]
+        closures = {}
+        proof_lines = []
+        etas = []
+
     # ---- vacuity twin: functions with a precondition get `ensures false` (must be rejected);
     #      all other functions are not re-verified (external_body)
     if getattr(u, "vacuity", False):
@@ -439,6 +479,7 @@ def emit_fn(u, file, nm, block):
             attrs = attrs + ["#[verifier::external_body]"]
             closures = {}
             proof_lines = []
+            etas = []
 
     # ---- closure anchors
     real_closures = it["closures"]
